@@ -14,6 +14,7 @@ Definition flip (d : dir) : dir := match d with Fwd => Adj | Adj => Fwd end.
 
 Section Expr.
 Variable S : StarRing.
+Variable RI : ReIm S.     (* real / imaginary part (used only by RealImag) *)
 Add Ring RrE : (rth S).
 Notation vec := (list S).
 Notation mat := (list (list S)).
@@ -32,7 +33,9 @@ Inductive expr :=
 | Cols (cs : list nat) (a : expr)     (* _ColumnLinearOperator(a, cs) *)
 | VStack (es : list expr)
 | HStack (es : list expr)
-| BlockDiag (es : list expr).
+| BlockDiag (es : list expr)
+| Kron (a b : expr)                    (* Kronecker(a, b) *)
+| RealImag (fw aj rl : bool) (a : expr). (* _RealImagLinearOperator(a, forw, adj, real): toreal / toimag *)
 
 (* Block(ops) wraps VStack([HStack(row) for row in ops]) *)
 Definition Block (ess : list (list expr)) : expr := VStack (map HStack ess).
@@ -46,7 +49,9 @@ Hypotheses (PLeaf : forall m n M, P (Leaf m n M))
   (PAdjW : forall a, P a -> P (AdjW a)) (PTranspW : forall a, P a -> P (TranspW a))
   (PConjE : forall a, P a -> P (ConjE a)) (PCols : forall cs a, P a -> P (Cols cs a))
   (PVStack : forall es, Forall P es -> P (VStack es)) (PHStack : forall es, Forall P es -> P (HStack es))
-  (PBlockDiag : forall es, Forall P es -> P (BlockDiag es)).
+  (PBlockDiag : forall es, Forall P es -> P (BlockDiag es))
+  (PKron : forall a b, P a -> P b -> P (Kron a b))
+  (PRealImag : forall fw aj rl a, P a -> P (RealImag fw aj rl a)).
 Fixpoint expr_ind' (e : expr) : P e :=
   let fix all (es : list expr) : Forall P es :=
     match es with [] => Forall_nil P | e :: es' => Forall_cons e (expr_ind' e) (all es') end in
@@ -59,6 +64,8 @@ Fixpoint expr_ind' (e : expr) : P e :=
   | ConjE a => PConjE a (expr_ind' a) | Cols cs a => PCols cs a (expr_ind' a)
   | VStack es => PVStack es (all es) | HStack es => PHStack es (all es)
   | BlockDiag es => PBlockDiag es (all es)
+  | Kron a b => PKron a b (expr_ind' a) (expr_ind' b)
+  | RealImag fw aj rl a => PRealImag fw aj rl a (expr_ind' a)
   end.
 End Ind.
 
@@ -68,12 +75,13 @@ Fixpoint shape (e : expr) : nat * nat :=
   | Leaf m n _ => (m, n)
   | Add a _ | Sub a _ => shape a
   | Mul a b => (fst (shape a), snd (shape b))
-  | Scale _ a | Neg a | ConjE a | Pow a _ => shape a
+  | Scale _ a | Neg a | ConjE a | Pow a _ | RealImag _ _ _ a => shape a
   | AdjW a | TranspW a => (snd (shape a), fst (shape a))
   | Cols cs a => (fst (shape a), length cs)
   | VStack es => (list_sum (map (fun e => fst (shape e)) es), match es with [] => 0%nat | e :: _ => snd (shape e) end)
   | HStack es => (match es with [] => 0%nat | e :: _ => fst (shape e) end, list_sum (map (fun e => snd (shape e)) es))
   | BlockDiag es => (list_sum (map (fun e => fst (shape e)) es), list_sum (map (fun e => snd (shape e)) es))
+  | Kron a b => (fst (shape a) * fst (shape b), snd (shape a) * snd (shape b))%nat
   end.
 Definition rows e := fst (shape e).
 Definition cols e := snd (shape e).
@@ -95,6 +103,8 @@ Fixpoint dense (e : expr) : mat :=
   | VStack es => concat (map dense es)
   | HStack es => hcat_all S (rows (HStack es)) (map dense es)
   | BlockDiag es => bdiag_all S (map (fun e => (cols e, dense e)) es)
+  | Kron a b => kron S (dense a) (dense b)
+  | RealImag _ _ rl a => if rl then mre S RI (dense a) else mim S RI (dense a)   (* Re(A) / Im(A) *)
   end.
 
 (* ---------- operational semantics ---------- *)
@@ -146,6 +156,20 @@ Fixpoint ap (d : dir) (e : expr) (x : vec) {struct e} : vec :=
       | Fwd => cat_slices S (map (fun e => (snd (shape e), ap Fwd e)) es) 0 x
       | Adj => cat_slices S (map (fun e => (fst (shape e), ap Adj e)) es) 0 x
       end
+  | Kron a b =>
+      (* x.reshape; Op2.matmat(x.T).T; Op1.matmat(y).ravel(); matmat = column loop
+         (theorem apmat_columns); Op1H/Op2H = a.H/b.H act as the adjoints (theorem ap_H) *)
+      match d with
+      | Fwd => kron_ap S (snd (shape a)) (snd (shape b)) (fst (shape b)) (fst (shape a)) (ap Fwd a) (ap Fwd b) x
+      | Adj => kron_ap S (fst (shape a)) (fst (shape b)) (snd (shape b)) (snd (shape a)) (ap Adj a) (ap Adj b) x
+      end
+  | RealImag fw aj rl a =>
+      match d with
+      | Fwd => let y := ap Fwd a x in
+               if fw then (if rl then vre S RI y else vim S RI y) else y
+      | Adj => let y := ap Adj a x in
+               if aj then (if rl then vre S RI y else vneg S (vim S RI y)) else y
+      end
   end.
 
 (* matmat / rmatmat on a list of columns: the default handler loops over
@@ -178,6 +202,8 @@ Fixpoint wf (e : expr) : Prop :=
   | HStack es => (fix all l := match l with [] => True | e :: l' => wf e /\ all l' end) es
                  /\ Forall (fun e' => fst (shape e') = fst (shape (HStack es))) es
   | BlockDiag es => (fix all l := match l with [] => True | e :: l' => wf e /\ all l' end) es
+  | Kron a b => wf a /\ wf b
+  | RealImag _ _ _ _ => False      (* only R-linear: see [rwf] below *)
   end.
 Lemma wf_all_Forall es : (fix all l := match l with [] => True | e :: l' => wf e /\ all l' end) es <-> Forall wf es.
 Proof. induction es as [|e es IH]; split; intros H; auto.
@@ -272,6 +298,9 @@ Proof. unfold rows, cols. induction e using expr_ind'; cbn [wf]; intros W.
     eapply repr_ext; [apply (repr_blockdiag S (fun e => fst (shape e)) (fun e => snd (shape e)) dense (ap Fwd) (ap Adj) es HR) | | ].
     + intros x. cbn [ap]. reflexivity.
     + intros y. cbn [ap]. reflexivity.
+  - destruct W as (Wa & Wb). specialize (IHe1 Wa). specialize (IHe2 Wb). cbn [shape dense fst snd].
+    eapply repr_ext; [apply (repr_kron S _ _ _ _ _ _ _ _ _ _ IHe1 IHe2) | reflexivity | reflexivity].
+  - destruct W.
 Qed.
 
 (* ---------- corollaries: the statements of C03 ---------- *)
@@ -375,6 +404,149 @@ Theorem pow_zero a x : ap Fwd (Pow a 0) x = x.
 Proof. reflexivity. Qed.
 Theorem pow_succ a p x : ap Fwd (Pow a (Datatypes.S p)) x = ap Fwd a (ap Fwd (Pow a p) x).
 Proof. reflexivity. Qed.
+
+(* ================= toreal / toimag: the R-linear level =================
+   _RealImagLinearOperator is not C-linear, so [wf] excludes it.  [rwf]
+   describes the trees in which it IS a matrix action: real-coefficient
+   trees (real leaves and scalars) applied to real vectors, in which
+   toreal()/toimag() (forw = adj = True) wrap arbitrary C-linear ([wf])
+   complex subtrees or further [rwf] trees. *)
+Fixpoint rwf (e : expr) : Prop :=
+  match e with
+  | Leaf m n M => length M = m /\ wfM S n M /\ mconj S M = M
+  | Add a b | Sub a b => rwf a /\ rwf b /\ shape a = shape b
+  | Mul a b => rwf a /\ rwf b /\ snd (shape a) = fst (shape b)
+  | Scale al a => isreal S al /\ rwf a
+  | Neg a | ConjE a | AdjW a | TranspW a => rwf a
+  | Pow a _ => rwf a /\ fst (shape a) = snd (shape a)
+  | RealImag fw aj _ a => fw = true /\ aj = true /\ (wf a \/ rwf a)
+  | _ => False
+  end.
+(* replace every toreal/toimag node by a MatrixMult leaf holding Re / Im of its dense matrix *)
+Fixpoint erase (e : expr) : expr :=
+  match e with
+  | Add a b => Add (erase a) (erase b) | Sub a b => Sub (erase a) (erase b)
+  | Mul a b => Mul (erase a) (erase b) | Scale al a => Scale al (erase a)
+  | Neg a => Neg (erase a) | Pow a p => Pow (erase a) p
+  | AdjW a => AdjW (erase a) | TranspW a => TranspW (erase a) | ConjE a => ConjE (erase a)
+  | RealImag _ _ rl a => Leaf (fst (shape a)) (snd (shape a)) (if rl then mre S RI (dense a) else mim S RI (dense a))
+  | _ => e
+  end.
+Definition inlen (d : dir) (e : expr) : nat := match d with Fwd => snd (shape e) | Adj => fst (shape e) end.
+
+Lemma erase_shape e : shape (erase e) = shape e.
+Proof. induction e using expr_ind'; cbn [erase shape]; rewrite ?IHe, ?IHe1, ?IHe2; auto. destruct (shape e); auto. Qed.
+Lemma isreal_sc d al : isreal S al -> sc d al = al.
+Proof. destruct d; auto. Qed.
+
+Lemma rwf_erase e : rwf e -> wf (erase e) /\ dense (erase e) = dense e.
+Proof. induction e using expr_ind'; cbn [rwf erase wf dense]; try tauto.
+  - intros (A & B & E). destruct (IHe1 A), (IHe2 B). rewrite !erase_shape. repeat split; auto; congruence.
+  - intros (A & B & E). destruct (IHe1 A), (IHe2 B). rewrite !erase_shape. repeat split; auto; congruence.
+  - intros (A & B & E). destruct (IHe1 A) as [W1 D1], (IHe2 B) as [W2 D2]. unfold cols. rewrite !erase_shape, D1, D2. auto.
+  - intros (A & B). destruct (IHe B) as [W1 D1]. rewrite D1; auto.
+  - intros B. destruct (IHe B) as [W1 D1]. rewrite D1; auto.
+  - intros (B & E). destruct (IHe B) as [W1 D1]. unfold cols. rewrite !erase_shape, D1; auto.
+  - intros B. destruct (IHe B) as [W1 D1]. unfold cols. rewrite !erase_shape, D1; auto.
+  - intros B. destruct (IHe B) as [W1 D1]. unfold cols. rewrite !erase_shape, D1; auto.
+  - intros B. destruct (IHe B) as [W1 D1]. rewrite D1; auto.
+  - intros (-> & -> & [Wa | Ra]).
+    + destruct (dense_wf _ Wa) as [Wd Ld]. unfold rows, cols in *.
+      destruct rl; repeat split; auto; unfold mre, mim; rewrite ?map_length; auto; [apply mre_wf | apply mim_wf]; auto.
+    + destruct (IHe Ra) as [W1 D1]. destruct (dense_wf _ W1) as [Wd Ld]. unfold rows, cols in *.
+      rewrite erase_shape, D1 in Wd, Ld.
+      destruct rl; repeat split; auto; unfold mre, mim; rewrite ?map_length; auto; [apply mre_wf | apply mim_wf]; auto.
+Qed.
+
+Lemma ap_len_erase e d x : rwf e -> length x = inlen d e ->
+  length (ap d (erase e) x) = inlen (flip d) e.
+Proof. intros R Hx. destruct (rwf_erase e R) as [W _].
+  rewrite (ap_length (erase e) d x W); unfold rows, cols; rewrite erase_shape; destruct d; auto. Qed.
+
+(* on real inputs a toreal/toimag tree acts like the erased (C-linear) tree
+   and returns real vectors *)
+Lemma ap_erase e : rwf e -> forall d x, vreal S x -> length x = inlen d e ->
+  ap d e x = ap d (erase e) x /\ vreal S (ap d e x).
+Proof. induction e using expr_ind'; cbn [rwf]; try tauto.
+  - intros (L & W & C) d x Rx Hx. split; auto. destruct d; cbn [ap]; [apply vreal_mv | apply vreal_mvH]; auto.
+  - intros (A & B & E) d x Rx Hx. cbn [erase ap].
+    destruct (IHe1 A d x Rx) as [E1 R1]; [destruct d; auto|].
+    destruct (IHe2 B d x Rx) as [E2 R2]; [destruct d; cbn [inlen shape] in *; congruence|].
+    rewrite <- E1, <- E2. split; auto. apply vreal_vadd; auto.
+  - intros (A & B & E) d x Rx Hx. cbn [erase ap].
+    destruct (IHe1 A d x Rx) as [E1 R1]; [destruct d; auto|].
+    destruct (IHe2 B d x Rx) as [E2 R2]; [destruct d; cbn [inlen shape] in *; congruence|].
+    rewrite <- E1, <- E2. rewrite (isreal_sc d m1) by apply isreal_m1. split; auto.
+    apply vreal_vadd; auto. apply vreal_vscale; auto. apply isreal_m1.
+  - intros (A & B & E) d x Rx Hx. cbn [erase]. destruct d; cbn [ap inlen shape fst snd] in *.
+    + destruct (IHe2 B Fwd x Rx Hx) as [E2 R2].
+      assert (L2 : length (ap Fwd e2 x) = inlen Fwd e1).
+      { rewrite E2. rewrite (ap_len_erase e2 Fwd x B Hx). cbn [inlen flip]. auto. }
+      destruct (IHe1 A Fwd _ R2 L2) as [E1 R1]. rewrite <- E2, <- E1. auto.
+    + destruct (IHe1 A Adj x Rx Hx) as [E1 R1].
+      assert (L1 : length (ap Adj e1 x) = inlen Adj e2).
+      { rewrite E1. rewrite (ap_len_erase e1 Adj x A Hx). cbn [inlen flip]. auto. }
+      destruct (IHe2 B Adj _ R1 L1) as [E2 R2]. rewrite <- E1, <- E2. auto.
+  - intros (A & B) d x Rx Hx. cbn [erase ap]. destruct (IHe B d x Rx) as [E1 R1]; [destruct d; auto|].
+    rewrite <- E1. split; auto. apply vreal_vscale; auto. rewrite isreal_sc; auto.
+  - intros B d x Rx Hx. cbn [erase ap]. destruct (IHe B d x Rx) as [E1 R1]; [destruct d; auto|].
+    rewrite <- E1. split; auto. apply vreal_vscale; auto. rewrite isreal_sc; apply isreal_m1.
+  - intros (B & E) d x Rx Hx. cbn [erase ap].
+    assert (Hx' : length x = inlen d e) by (destruct d; exact Hx). clear Hx.
+    assert (K : Nat.iter p (ap d e) x = Nat.iter p (ap d (erase e)) x /\ vreal S (Nat.iter p (ap d e) x)
+                /\ length (Nat.iter p (ap d e) x) = inlen d e).
+    { induction p as [|p IHp]; [simpl; repeat split; auto|]. simpl. destruct IHp as (E1 & R1 & L1).
+      destruct (IHe B d _ R1 L1) as [E2 R2]. rewrite <- E1. repeat split; auto.
+      rewrite E2. rewrite (ap_len_erase e d _ B L1). destruct d; cbn [inlen flip shape] in *; congruence. }
+    tauto.
+  - intros B d x Rx Hx. cbn [erase ap]. apply IHe; auto. destruct d; auto.
+  - intros B d x Rx Hx. cbn [erase ap].
+    destruct (IHe B (flip d) (vconj S x)) as [E1 R1]; [apply vreal_vconj; auto | rewrite vconj_length; destruct d; auto |].
+    rewrite <- E1. split; auto. apply vreal_vconj; auto.
+  - intros B d x Rx Hx. cbn [erase ap].
+    destruct (IHe B d (vconj S x)) as [E1 R1]; [apply vreal_vconj; auto | rewrite vconj_length; destruct d; auto |].
+    rewrite <- E1. split; auto. apply vreal_vconj; auto.
+  - intros (-> & -> & HA) d x Rx Hx. cbn [inlen shape] in Hx.
+    assert (K : ap d e x = match d with Fwd => mv S (dense e) x | Adj => mvH S (snd (shape e)) (dense e) x end).
+    { destruct HA as [Wa | Ra].
+      - destruct d; [apply ap_fwd_dense | apply ap_adj_mvH]; auto.
+      - destruct (IHe Ra d x Rx) as [E1 _]; [destruct d; auto|]. rewrite E1.
+        destruct (rwf_erase e Ra) as [W1 D1].
+        destruct d; [rewrite ap_fwd_dense | rewrite ap_adj_mvH]; auto; unfold rows, cols; rewrite ?erase_shape, ?D1; auto. }
+    cbn [erase]. destruct d; cbn [ap]; rewrite K; destruct rl.
+    + split; [apply vre_mv; auto | apply vreal_vre].
+    + split; [apply vim_mv; auto | apply vreal_vim].
+    + split; [apply vre_mvH; auto | apply vreal_vre].
+    + split; [apply vnim_mvH; auto | apply vreal_vneg, vreal_vim].
+Qed.
+
+Theorem rap_fwd_dense e x : rwf e -> vreal S x -> length x = cols e -> ap Fwd e x = mv S (dense e) x.
+Proof. intros R Rx Hx. destruct (ap_erase e R Fwd x Rx Hx) as [E _]. destruct (rwf_erase e R) as [W D].
+  rewrite E, ap_fwd_dense, D; auto. unfold cols; rewrite erase_shape; auto. Qed.
+Theorem rap_adj_dense e y : rwf e -> vreal S y -> length y = rows e ->
+  ap Adj e y = mv S (ctranspose S (cols e) (dense e)) y.
+Proof. intros R Ry Hy. destruct (ap_erase e R Adj y Ry Hy) as [E _]. destruct (rwf_erase e R) as [W D].
+  rewrite E, ap_adj_dense; auto; unfold rows, cols; rewrite ?erase_shape, ?D; auto. Qed.
+Theorem rap_real e d x : rwf e -> vreal S x -> length x = inlen d e -> vreal S (ap d e x).
+Proof. intros R Rx Hx. apply ap_erase; auto. Qed.
+(* dot test with the real inner product, on real vectors *)
+Theorem rap_dot_test e x y : rwf e -> vreal S x -> vreal S y -> length x = cols e -> length y = rows e ->
+  dotu S (ap Fwd e x) y = dotu S x (ap Adj e y).
+Proof. intros R Rx Ry Hx Hy. destruct (ap_erase e R Fwd x Rx Hx) as [E1 R1]. destruct (ap_erase e R Adj y Ry Hy) as [E2 R2].
+  destruct (rwf_erase e R) as [W D].
+  pose proof (ap_dot_test (erase e) x y W) as P. unfold rows, cols in P. rewrite erase_shape in P.
+  specialize (P Hx Hy). unfold dot in P. rewrite <- E1, <- E2 in P. rewrite R1, Rx in P. exact P. Qed.
+
+(* any flags, root level, over a C-linear tree: as coded *)
+Theorem realimag_fwd fw aj rl e x : wf e -> length x = cols e ->
+  ap Fwd (RealImag fw aj rl e) x =
+  (if fw then (if rl then vre S RI else vim S RI) else (fun y => y)) (mv S (dense e) x).
+Proof. intros W Hx. cbn [ap]. rewrite ap_fwd_dense by auto. destruct fw, rl; reflexivity. Qed.
+Theorem realimag_adj fw aj rl e y : wf e -> length y = rows e ->
+  ap Adj (RealImag fw aj rl e) y =
+  (if aj then (if rl then vre S RI else (fun v => vneg S (vim S RI v))) else (fun v => v))
+    (mv S (ctranspose S (cols e) (dense e)) y).
+Proof. intros W Hy. cbn [ap]. rewrite ap_adj_dense by auto. destruct aj, rl; reflexivity. Qed.
 End Expr.
 
 Arguments Leaf {S} m n M.
@@ -382,3 +554,4 @@ Arguments Add {S} a b. Arguments Sub {S} a b. Arguments Mul {S} a b.
 Arguments Scale {S} alpha a. Arguments Neg {S} a. Arguments Pow {S} a p.
 Arguments AdjW {S} a. Arguments TranspW {S} a. Arguments ConjE {S} a.
 Arguments Cols {S} cs a. Arguments VStack {S} es. Arguments HStack {S} es. Arguments BlockDiag {S} es.
+Arguments Kron {S} a b. Arguments RealImag {S} fw aj rl a.
